@@ -27,8 +27,11 @@ import (
 )
 
 var (
-	verifDir = envOr("VERIF_DIR", "/verif")
-	repoDir  = envOr("VERIF_REPO", "/repo")
+	verifDir    = envOr("VERIF_DIR", "/verif")
+	repoDir     = envOr("VERIF_REPO", "/repo")
+	evidenceDir = envOr("VERIF_EVIDENCE_DIR", filepath.Join(verifDir, "evidence"))
+	replayDir   = envOr("VERIF_REPLAY_DIR", filepath.Join(verifDir, "replays"))
+	workRoot    = envOr("VERIF_WORK", filepath.Join(verifDir, ".work"))
 )
 
 func envOr(k, d string) string {
@@ -441,7 +444,7 @@ func main() {
 }
 
 func buildWorker(prop, mode string, race bool) (string, *instr.Info) {
-	work := filepath.Join(verifDir, ".work", prop)
+	work := filepath.Join(workRoot, prop)
 	os.MkdirAll(work, 0o755)
 	info, err := instr.Generate(repoDir, mode, filepath.Join(work, "overlay-"+mode), filepath.Join(verifDir, "vmc", "_src"))
 	if err != nil {
@@ -474,9 +477,9 @@ func check(prop, tier string) int {
 	if s := os.Getenv("VERIF_WORKERS"); s != "" {
 		nw, _ = strconv.Atoi(s)
 	}
-	work := filepath.Join(verifDir, ".work", prop)
+	work := filepath.Join(workRoot, prop)
 	os.MkdirAll(work, 0o755)
-	os.MkdirAll(filepath.Join(verifDir, "evidence"), 0o755)
+	os.MkdirAll(evidenceDir, 0o755)
 	kfs := loadKnown()
 
 	bin, info := buildWorker(prop, spec.Mode, false)
@@ -731,7 +734,7 @@ func check(prop, tier string) int {
 		"violations":  total.Violations,
 	}
 	b, _ := json.MarshalIndent(ev, "", " ")
-	evPath := filepath.Join(verifDir, "evidence", prop+".json")
+	evPath := filepath.Join(evidenceDir, prop+".json")
 	if err := os.WriteFile(evPath, b, 0o644); err != nil {
 		die(2, "write evidence: %v", err)
 	}
@@ -832,7 +835,7 @@ func locate(bin, prop, tier string, f fatal) *located {
 }
 
 func writeReplay(v Violation) string {
-	dir := filepath.Join(verifDir, "replays")
+	dir := replayDir
 	os.MkdirAll(dir, 0o755)
 	b, _ := json.MarshalIndent(v, "", " ")
 	h := sha1.Sum(append(append([]byte(v.Class), v.Input...), v.Cfg...))
